@@ -161,6 +161,14 @@ CLAIMS = {
    note="Trusted: TLC, Fix.tla, math.sin/cos for the spherical->Cartesian witnesses (norms verified in the spec).",
    technique="TLA+ rotation algebra model-checked on lattice directions + trace validation on verified unit-vector witnesses",
    ref="5/C05"),
+ "C06": dict(
+   text="Precession is specified as a rigid invertible rotation of unit vectors: zero interval = identity, there-and-back, "
+        "angles between stars unchanged (scaled-chord comparison with a verified chord witness), agreement of the equatorial and "
+        "ecliptical routes, linearity and size of the proper-motion displacement, Newcomb vs FK5, element reduction inverse; "
+        "TLC validates recorded scenarios incl. both polar caps, the rotation algebra itself is model-checked on lattice directions.",
+   note="Trusted: TLC, Fix.tla, math.sin/cos/sqrt witnesses (norms / squares verified).",
+   technique="TLA+ rotation relations over verified unit-vector witnesses; trace validation",
+   ref="5/C06"),
 }
 
 PENDING_REASON = "check not built yet in this round (specification module planned in DESIGN.md section 5); not claimed until its trace specification validates the unchanged tree"
